@@ -22,7 +22,7 @@ func init() {
 	register(&Check{
 		ID: "C13", Level: "exploration", Configs: []string{"clean"},
 		Run:         runC13,
-		QuickRuns:   250_000,
+		QuickRuns:   150_000,
 		ThoroughSec: 600,
 		Rule: "one run = 1-8 temporal units of 1-8 OBUs (all 16 types incl. temporal delimiters and tile lists, optional extension header with drawn temporal/spatial id and reserved bits, " +
 			"size field on all OBUs or omitted on the last, payload sizes {0,1,126-129,16382-16385,mtu-3..mtu+1,..4*mtu}) through a real AV1Payloader at an MTU >= 2 (biased 2-64, 1200) to a " +
@@ -41,6 +41,14 @@ func init() {
 func runC13(c *core.Ctx) {
 	t := c.T
 	mtu := 2 + []int{10, 0, 1, 2, 5, 30, 62, 1198}[t.Intn(8)] + t.Intn(4)
+	if t.Chance(1, 16) {
+		// jumbo MTUs: the only place where an element needs a 3-byte LEB128 length (>= 16384 bytes)
+		mtu = []int{16384, 16390, 20000, 65535}[t.Intn(4)] + t.Intn(8)
+		if mtu > 65535 {
+			mtu = 65535
+		}
+		c.Probe("jumbo-mtu")
+	}
 	pay := &codecs.AV1Payloader{}
 	dep := &codecs.AV1Depacketizer{}
 	var fr frame.AV1
